@@ -143,18 +143,16 @@ def minH : Handler := fun args => do
     else .error ("token separation: lex(emit ts) differs from ts for " ++ String.ofList cs)
   | none => .error "unmodelled"
 
-/-- `trig.c01.known <ver2020> <prog>` → `1` iff the program falls under an open known finding of the model:
-    K-C01-1 `return a,b,undefined` / K-C01-2 call merging below an effectful condition (the model is defined, the guarded
-    model is not), or K-C01-10 (the model is undefined only because of the optional-chaining rewrite — it is defined
-    without the ES2020 rewrites —: the chain `a?.b` produced inside parentheses in the position of a member/call object) -/
+/-- `trig.c01.known <ver2020> <prog>` → `1` iff the program is in the modelled fragment and falls under an open known
+    finding of the model (K-C01-1 `return a,b,undefined`, K-C01-2 call merging below an effectful condition): the model
+    is defined, the guarded model is not -/
 def knownH : Handler := fun args => do
   let v ← argBool args 0
   let b ← argBytes args 1
   let prog ← parseProg b
   let plain := jsMinify { ver2020 := v } prog
   let guarded := jsMinify { ver2020 := v, guarded := true } prog
-  let k10 := v && plain.isNone && (jsMinify { ver2020 := false } prog).isSome
-  .ok (boolBytes ((plain.isSome && guarded.isNone) || k10))
+  .ok (boolBytes (plain.isSome && guarded.isNone))
 
 def handlers : List (String × Handler) := [("model.c01.min", minH), ("trig.c01.known", knownH)]
 
